@@ -42,7 +42,7 @@ DEFAULT_FEATURES = {
     "match_expr_nested": False,  # match expression anywhere but directly as the returned value: transpiler types it as the function's return type
     "zero_arg_fnvalue": False,   # (p) with p a zero-parameter function value is not a call
     "self_assign": False,        # set s <expr that can evaluate to s itself, e.g. s or (cond (c s) ..)> on a string: nanoc's evaluator frees it (garbage / crash)
-    "break_in_match": False,     # break inside a match arm inside a loop: natively it only leaves the C switch
+    "break_in_match": True,  # fixed (was: natively it only left the C switch) break inside a match arm inside a loop
     "void_bare_return": True,    # fixed in the VM (was: a void function with a bare return in a nested block ran off its end)
     "array_literal_effect": False,  # effectful element in an array literal: nanoc's evaluator evaluates the first element twice (and native right-to-left)
     "string_field_direct": False,   # a struct's string field used directly as a let/set value: nanoc's evaluator frees it (garbage / crash)
@@ -50,7 +50,7 @@ DEFAULT_FEATURES = {
     "block_shadow_selfref": False,  # inner `let x = f(x)` shadowing an outer x: natively the initialiser reads the new, uninitialised x
     "block_shadow_mut_mismatch": False,  # inner immutable `let x` shadowing a mutable outer x: the type checker then rejects `set x` after the block
     "tuple_index_of_call": False,  # (f x).0 : the type checker cannot type a tuple index applied to a call result (valid program rejected)
-    "print_indirect_call": False,  # (println (f args)) through a function value prints <unknown> natively
+    "print_indirect_call": True,  # fixed (was: <unknown> natively) (println (f args)) through a function value
 }
 
 BUILTIN_NAMES = set("""abs min max str_length str_concat str_substring str_contains str_equals char_at string_from_char
